@@ -48,7 +48,7 @@ import (
 
 // Ev is one step of an interleaved script.
 type Ev struct {
-	E    string `json:"e"` // sub | unsub | msg | idle
+	E    string `json:"e"` // sub | unsub | msg | idle | other operations (other.go): close | bcast | health | handler
 	S    string `json:"s,omitempty"`
 	T    uint8  `json:"t,omitempty"`
 	C    int    `json:"c,omitempty"`    // sub: channel number
@@ -57,6 +57,7 @@ type Ev struct {
 	St   int    `json:"st,omitempty"`   // msg: index of the stream it is written to
 	Join bool   `json:"join,omitempty"` // msg: handed to the decoder in the same Read as the msg event right before it (same stream)
 	Ms   int    `json:"ms,omitempty"`   // idle: milliseconds during which the harness does nothing
+	To   []int  `json:"to,omitempty"`   // bcast / health: the addressees (peer numbers, see other.go)
 }
 
 func hasIdle(c Case) bool {
@@ -77,8 +78,7 @@ func runFanI(c Case) (Obs, bool) {
 	for i := 1; i <= maxPeerNo; i++ {
 		peerNo[p2pfakes.PeerID(i)] = i
 	}
-	h := p2pfakes.NewHost(p2pfakes.PeerID(0))
-	cm := p2p.NewCommunication(h, "p2p/sygma")
+	cm := p2p.NewCommunication(newOutHost(), "p2p/sygma")
 
 	chans := map[int]chan *comm.WrappedMessage{}
 	num := map[chan *comm.WrappedMessage]int{}
@@ -252,7 +252,12 @@ func runFanI(c Case) (Obs, bool) {
 				}
 			}
 		default:
-			panic("fani case: event " + e.E)
+			if !isOther(e.E) {
+				panic("fani case: event " + e.E)
+			}
+			// an other operation of the communication layer, between the messages: whatever is in flight
+			// stays in flight (nothing is collected first), later messages are fed as before
+			doOther(cm, e.E, e.S, e.T, e.To)
 		}
 	}
 	collectAll()
@@ -489,6 +494,56 @@ func genFanI(r *vgen.Rng) Case {
 	return c
 }
 
+// genFanIX: an interleaved script with other operations of the communication layer between the
+// messages: after a subscription and before the next message of its pair, between two messages of one
+// stream, after cancellations.
+func genFanIX(r *vgen.Rng) Case {
+	c := genFanI(r)
+	var sess []string
+	var types []uint8
+	seenS, seenT := map[string]bool{}, map[uint8]bool{}
+	for _, e := range c.Script {
+		if e.E == "sub" || e.E == "msg" {
+			if !seenS[e.S] {
+				seenS[e.S] = true
+				sess = append(sess, e.S)
+			}
+			if !seenT[e.T] {
+				seenT[e.T] = true
+				types = append(types, e.T)
+			}
+		}
+	}
+	var out []Ev
+	placed := false
+	for i, e := range c.Script {
+		joinedNext := i+1 < len(c.Script) && c.Script[i+1].E == "msg" && c.Script[i+1].Join
+		out = append(out, e)
+		if joinedNext {
+			continue // messages joined into one Read have nothing between them
+		}
+		switch {
+		case e.E == "sub" && r.Chance(1, 2):
+			out = append(out, Ev{E: "close", S: e.S})
+			placed = true
+		case r.Chance(1, 3):
+			op, s, t, to := genOther(r, sess, types)
+			out = append(out, Ev{E: op, S: s, T: t, To: to})
+			placed = true
+		}
+	}
+	if !placed {
+		// before the last message
+		j := len(out) - 1
+		for j > 0 && (out[j].E != "msg" || out[j].Join) {
+			j--
+		}
+		out = append(out[:j], append([]Ev{{E: "close", S: out[j].S}}, out[j:]...)...)
+	}
+	c.Script = out
+	return c
+}
+
 // genSlow: subscribers of a pair, a few messages for them that nobody reads (unbuffered or
 // capacity-1 channels: the deliveries are pending), possibly a late subscriber and further messages,
 // then nobody does anything for idleMs; afterwards a little more traffic (also a cancellation, before
@@ -553,7 +608,12 @@ func genSlow(r *vgen.Rng, idleMs int) Case {
 func fanICoq(c Case, o Obs) string {
 	var evs []string
 	k := 0
+	others := hasOther(c)
 	for _, e := range c.Script {
+		if isOther(e.E) {
+			evs = append(evs, "XOth ("+otherCoq(e.E, e.S, e.T, e.To)+")")
+			continue
+		}
 		switch e.E {
 		case "sub":
 			u := uint64(0)
@@ -573,11 +633,34 @@ func fanICoq(c Case, o Obs) string {
 	for i, l := range o.Recv {
 		recv[i] = vgen.ListOf(l, func(m RMsg) string { return msgCoq(m.S, m.T, m.P, m.F) })
 	}
+	if others {
+		for i, e := range evs {
+			if !strings.HasPrefix(e, "XOth ") {
+				evs[i] = "XEv (" + e + ")"
+			}
+		}
+		return "FanIX " + vgen.List(evs) + " " + ints(o.Chans) + " " + vgen.List(recv)
+	}
 	return "FanI " + vgen.List(evs) + " " + ints(o.Chans) + " " + vgen.List(recv)
 }
 
 // non-trivial: a table operation strictly between two messages of one stream
 func fanINonTrivial(c Case) bool {
+	if hasOther(c) {
+		// an other operation between a subscription and a later message
+		nsub, oth := 0, false
+		for _, e := range c.Script {
+			switch {
+			case e.E == "sub":
+				nsub++
+			case isOther(e.E) && nsub > 0:
+				oth = true
+			case e.E == "msg" && oth:
+				return true
+			}
+		}
+		return false
+	}
 	seen := map[int]bool{}    // streams that carried a message
 	opAfter := map[int]bool{} // ... and a table operation since
 	for _, e := range c.Script {
